@@ -296,7 +296,7 @@ def _cex(ctx, res, task, va, xf, desc, neg, problems=None):
 def tasks_for(tier, seed):
     rng = random.Random(seed * 131 + 9)
     tasks = []
-    n = 150 if tier == "quick" else 1500
+    n = 150 if tier == "quick" else 6000
     k_atoms = 6 if tier == "quick" else 8
     # the degenerate members first: nothing in :init, nothing in the goal
     tasks.append({"atoms": [], "fluents": [], "goal": [], "objects": OBJECT_SETS[0]})
